@@ -180,11 +180,16 @@ def run_check(prop, args, seed, t_start):
     todo = [c for c in contracts if not c.trusted]
     import multiprocessing
     obs = []
+    infeasible_calls = []
     if todo:
         mp = multiprocessing.get_context('fork')
         with mp.Pool(min(16, len(todo))) as pool:
             results = pool.map(verify_worker, [(c.name, tier) for c in todo], chunksize=1)
         for r in results:
+            for w in r.get('warnings', []):
+                if 'is infeasible at a call' in w:
+                    # a callee postcondition that contradicts the caller's path silently removes that path: vacuity, fail closed
+                    infeasible_calls.append(w)
             if r['unsupported'] is not None:
                 unsupported.append({'contract': r['name'], 'reason': r['unsupported']})
                 continue
@@ -307,6 +312,9 @@ def run_check(prop, args, seed, t_start):
             print('KNOWN-FINDING: property=%s %s [%s]' % (prop, f['text'], f['key']))
             printed.add(f['key'])
     rc = 0
+    for w in sorted(set(infeasible_calls)):
+        print('CHECKER-ERROR property=%s vacuous path: %s' % (prop, w))
+        rc = 3
     if vacuous:
         for o in vacuous:
             print('CHECKER-ERROR property=%s vacuous: %s is unsatisfiable' % (prop, o.oid))
